@@ -58,7 +58,6 @@ class MarkupTemplate(Template):
                   ('attrs', AttrsDirective),
                   ('strip', StripDirective)]
     serializer = 'xml'
-    _number_conv = Markup
 
     def __init__(self, source, filepath=None, filename=None, loader=None,
                  encoding=None, lookup='strict', allow_exec=True):
